@@ -45,7 +45,7 @@ def load_flags(ctx):
 
 def budget(tier):
     if tier == 'quick':
-        return dict(workers=14, examples=700, wall=170)
+        return dict(workers=14, examples=1500, wall=170)
     return dict(workers=14, examples=20000, wall=1700)
 
 
